@@ -92,6 +92,15 @@ def mk(tstep=None, tol=None):
         # a timed change of a time constant during the run (inertia of the first machine times 0.8 at t = 1 s)
         gm = ss.GENROU if ss.GENROU.n else ss.GENCLS
         ss.add('Alter', dict(t=1.0, model=gm.class_name, dev=gm.idx.v[0], src='M', attr='v', method='*', amount=0.8))
+    if spec.get('aw_bind'):
+        # drive an anti-windup limiter onto its upper (+1) / lower (-1) limit by a step of the voltage reference of the
+        # first exciter, then apply and clear a bus fault while it is held there (steps with many Newton iterations)
+        ss.Toggle.u.v = [0] * ss.Toggle.n
+        ex = [m for m in ss.groups['Exciter'].models.values() if m.n]
+        if ex:
+            ss.add('Alter', dict(t=0.5, model=ex[0].class_name, dev=ex[0].idx.v[0], src='vref0', attr='v', method='+',
+                                 amount=0.3 * spec['aw_bind']))
+        ss.add('Fault', dict(bus=ss.Bus.idx.v[4], tf=0.7, tc=0.75, xf=1e-4, rf=0))
     ss.setup()
     ss.PFlow.run(); c = ss.TDS.config
     c.no_tqdm = 1; c.criteria = 0; c.method = spec['method']; ss.TDS.set_method(spec['method'])
@@ -123,14 +132,33 @@ if spec['kind'] == 'record':
             for item in a.antiwindups:
                 for key, _, _ in item.x_set:
                     peg.update(int(k) for k in np.ravel(key))
+            # "held at a limit" means AT it (to within the Newton tolerance: the last increment moves a clamped state by at most
+            # tol): a flagged state that sits on neither of its limiter's limits is not exempt
+            at_limit = set()
+            for item in a.antiwindups:
+                adr = np.ravel(item.state.a)
+                xv = a.dae.x[adr]
+                if not item.no_upper:
+                    up = np.ravel(-item.upper.v if item.sign_upper.v == -1 else item.upper.v) * np.ones(len(adr))
+                    at_limit.update(int(k) for k in adr[np.abs(xv - up) <= 10 * a.TDS.config.tol * (1 + np.abs(up))])
+                if not item.no_lower:
+                    lo = np.ravel(-item.lower.v if item.sign_lower.v == -1 else item.lower.v) * np.ones(len(adr))
+                    at_limit.update(int(k) for k in adr[np.abs(xv - lo) <= 10 * a.TDS.config.tol * (1 + np.abs(lo))])
+            off_limit = sorted(peg - at_limit)
+            peg = peg & at_limit
             stat = {('Line', 'u'): np.array(a.Line.u.v).copy()}
             if a.Fault.n:
                 # the status the step was solved with (a fault is applied / cleared by do_switch AFTER the step that
                 # lands on its time has been accepted)
                 stat[('Fault', 'uf')] = np.array(a.Fault.uf.v).copy()
+            if spec.get('aw_bind'):
+                for m in a.groups['Exciter'].models.values():
+                    if m.n and hasattr(m, 'vref0'):
+                        stat[(m.class_name, 'vref0')] = np.array(m.vref0.v).copy()
             stat[('__T', '')] = time_constants(a)
             rec.append((t, h, x0, f0, a.dae.x.copy(), a.dae.y.copy(), stat,
-                        sorted(peg), int(a.TDS.niter), bool(a.TDS.chatter), float(np.max(np.abs(a.TDS.inc)))))
+                        sorted(peg), int(a.TDS.niter), bool(a.TDS.chatter), float(np.max(np.abs(a.TDS.inc))), off_limit,
+                        a.dae.f.copy()))
         else:
             if not (np.array_equal(a.dae.x, x0) and np.array_equal(a.dae.y, y0) and np.array_equal(a.dae.f, f0)):
                 rec.append(('not-restored', t))
@@ -138,13 +166,17 @@ if spec['kind'] == 'record':
     a.TDS.itm_step = wrap
     with contextlib.redirect_stdout(sink):
         ok = a.TDS.run()
-    wq = wg = 0.0; worst = None; hs = []; notrest = 0; chat = 0; active = 0
+    wq = wg = 0.0; worst = None; hs = []; notrest = 0; chat = 0; active = 0; held_steps = 0; flagged_off = []; stale = []
     uf = None
     for r in rec:
         if r[0] == 'not-restored':
             notrest += 1; continue
-        (t, h, x0, f0, x1, y1, us, peg, nit, ch, incmax) = r
+        (t, h, x0, f0, x1, y1, us, peg, nit, ch, incmax, off_limit, f1_own) = r
         hs.append(h)
+        if peg:
+            held_steps += 1
+        if off_limit and not ch:
+            flagged_off.append((t, [str(a.dae.x_name[k]) for k in off_limit[:3]]))
         if ch:
             chat += 1
         b.dae.x[:] = x1; b.dae.y[:] = y1; b.dae.t = np.array(t)
@@ -161,11 +193,21 @@ if spec['kind'] == 'record':
             if np.max(np.abs(f1)) > 1e-6:
                 active += 1
             mq, mg = float(np.max(np.abs(q))), float(np.max(np.abs(g1)))
+            if mq > a.TDS.config.tol and peg:
+                # is the violation explained by the right-hand sides the integrator itself held at acceptance?  With a
+                # state pegged by an anti-windup limiter, System.fg_update evaluates f BEFORE the limiter clamps the
+                # state: equations fed by the pegged state see the value the previous Newton increment left there
+                q_own = Tf * (x1 - x0) - (h * 0.5 * (f1_own + f0) if spec['method'] == 'trapezoid' else h * f1_own)
+                q_own[peg] = 0
+                if float(np.max(np.abs(q_own))) <= a.TDS.config.tol:
+                    k = int(np.argmax(np.abs(q)))
+                    stale.append((mq, t, h, str(a.dae.x_name[k]), [str(a.dae.x_name[j]) for j in peg][:3]))
+                    continue
             if mq > wq: wq, worst = mq, (t, h, int(np.argmax(np.abs(q))))
             wg = max(wg, mg)
     print(json.dumps({'ok': bool(ok), 'steps': len(hs), 'wq': wq, 'wg': wg, 'worst': worst, 'hmax': max(hs) if hs else 0,
                       't_end': float(a.dae.t), 'not_restored': notrest, 'chatter_steps': chat, 'active_steps': active,
-                      'tol': float(a.TDS.config.tol)}))
+                      'held_steps': held_steps, 'flagged_off_limit': flagged_off[:3], 'stale_f': sorted(stale, reverse=True)[:3], 'n_stale_f': len(stale), 'tol': float(a.TDS.config.tol)}))
 else:
     outs = []
     for k in (1, 2, 4):
@@ -203,6 +245,9 @@ def real_stream(ctx):
             specs.append({'kind': 'record', 'case': case, 'tf': tf, 'method': m, 'fixt': fx, 'g_scale': gs, 'honest': hon})
     specs.append({'kind': 'record', 'case': cases[0][0], 'tf': 2.4, 'method': 'trapezoid', 'fixt': 1, 'g_scale': 1, 'honest': 0,
                   'alter_tc': 1})
+    for sgn in (1, -1):
+        specs.append({'kind': 'record', 'case': cases[0][0], 'tf': 1.0, 'method': 'trapezoid', 'fixt': 1, 'g_scale': 1, 'honest': 0,
+                      'aw_bind': sgn})
     for m in ('trapezoid', 'backeuler'):
         specs.append({'kind': 'order', 'case': cases[0][0], 'tf': 2.4, 'method': m, 'fixt': 1, 'g_scale': 1, 'honest': 0,
                       'tstep': 1 / 30})
@@ -210,7 +255,7 @@ def real_stream(ctx):
         res = pool.map(rec_job, specs)
     orders = {}
     for sp, r in zip(specs, res):
-        key = {k: sp.get(k) for k in ('case', 'method', 'fixt', 'g_scale', 'honest', 'kind', 'alter_tc')}
+        key = {k: sp.get(k) for k in ('case', 'method', 'fixt', 'g_scale', 'honest', 'kind', 'alter_tc', 'aw_bind', 'tf')}
         ctx.case(json.dumps(key, sort_keys=True), key)
         if 'error' in r:
             ctx.oracle_fail('real-run-raises', 'real TDS run raised: ' + r['error'][-200:], key)
@@ -218,10 +263,22 @@ def real_stream(ctx):
         if sp['kind'] == 'record':
             ctx.count('recorded_accepted_steps', r['steps'])
             ctx.count('recorded_active_steps', r['active_steps'])
+            ctx.count('recorded_steps_with_a_state_held_at_a_limit', r.get('held_steps', 0))
+            if sp.get('aw_bind'):
+                ctx.count('aw_bind_run_held_steps:%+d' % sp['aw_bind'], r.get('held_steps', 0))
             ctx.cov['max_rule_residual'] = max(ctx.cov.get('max_rule_residual', 0.0), r['wq'])
             ctx.cov['max_g_residual'] = max(ctx.cov.get('max_g_residual', 0.0), r['wg'])
             if not r['ok'] or r['t_end'] != sp['tf']:
                 ctx.oracle_fail('stable-case-not-simulated-to-tf', 'a stable stock case was not simulated to tf (%r)' % r, key)
+            if r.get('flagged_off_limit'):
+                ctx.oracle_fail('pegged-state-not-at-limit', 'a state flagged as held by an anti-windup limiter sits on neither limit after '
+                                'an accepted step (and is thereby exempted from the rule): %r' % (r['flagged_off_limit'],), key)
+            if r.get('n_stale_f'):
+                ctx.count('steps_with_stale_f_after_clamp', r['n_stale_f'])
+                ctx.oracle_fail('stale-f-after-antiwindup-clamp', 'accepted step: the equation of %s (fed by the anti-windup state %s, pegged in '
+                                'this step) violates the rule by %.3g at t = %.4f when f is evaluated at the accepted state; with the f the '
+                                'integrator held (computed before the limiter clamped the state) it is satisfied'
+                                % (r['stale_f'][0][3], r['stale_f'][0][4], r['stale_f'][0][0], r['stale_f'][0][1]), key)
             if r['wq'] > r['tol']:
                 ctx.oracle_fail('accepted-step-violates-rule', 'accepted step violates the %s rule: max residual %.3g > tol %.1e at (t,h,state)=%r'
                                 % (sp['method'], r['wq'], r['tol'], r['worst']), key)
@@ -263,7 +320,7 @@ def replay(ctx, rep):
     print('replay: re-run the recorded-step oracle for', json.dumps(rep.get('case'))[:300])
     case = rep.get('case') or {}
     if 'method' in case:
-        r = rec_job(dict(case, kind=case.get('kind', 'record'), tf=2.4))
+        r = rec_job(dict(case, kind=case.get('kind', 'record'), tf=case.get('tf') or 2.4))
         print(r)
-        return 'error' not in r and r.get('wq', 0) <= r.get('tol', 1e-4)
+        return 'error' not in r and r.get('wq', 0) <= r.get('tol', 1e-4) and not r.get('n_stale_f') and not r.get('flagged_off_limit')
     return True
